@@ -120,9 +120,9 @@ def run(ctx):
             msteps = [{"set_store": "dict"}, {"world": progs.model_world(w, s.extmod)}]
             entry = {"kind": "eval", "fun": "f0"}
             recs = []
-            ks = list(range(1, 6))
+            ks = list(range(0, 6))     # 0: the empty list of stages, the shortest prefix
             rng.shuffle(ks)
-            plan = ks[:3] + [5] if not thorough else ks + [5, 2, 5]
+            plan = ks[:3] + [0, 5] if not thorough else ks + [5, 2, 0, 5]
             full_paths = None
             prev_committed = {}
             for k in plan:
